@@ -105,6 +105,8 @@ DECORATIONS = (
     + [{"id": "frame%d" % i, "frame": p, "ws": ws, "trail": tr} for i, (p, ws, tr) in enumerate([
         ("", "  ", ""), ("", " ", " "), ("|*", "  ", ""), ("*", " ", ""), ("**", "\t", ""), ("|", "   ", ""), ("#", " ", "\t"),
         ("|*", " ", " */")])]
+    + [{"id": "framelead0", "frame": "", "ws": " ", "lead": "\t"}, {"id": "framelead1", "frame": "|*", "ws": "\t", "lead": " \t", "trail": " "},
+       {"id": "framelead2", "frame": "*", "ws": "  ", "lead": "    ", "sep": "\t"}]
 )
 
 
@@ -237,9 +239,17 @@ def boundary(case, b):
 # implementation adapters
 
 
+_SCRATCH = []
+
+
 def scratch_dir():
+    import atexit
+    import shutil
     import cli
     d = os.path.join(cli.SCRATCH_BASE, "rv-c02-%d" % os.getpid())
+    if not _SCRATCH:
+        _SCRATCH.append(d)
+        atexit.register(shutil.rmtree, d, True)
     os.makedirs(d, exist_ok=True)
     return d
 
@@ -339,8 +349,8 @@ def case_build(case):
 class GridStream(Stream):
     name = "grid"
     rule = ("planted-value grid: every (style, form) of the live style table (single-line, inline multi-line, block multi-line with middle "
-            "marker; one bare form) x 43 decorations (indentation, tabs, several blanks, trailing blanks, 23 stacked foreign terminators, 8 "
-            "ASCII-art frames with mirrored suffix) x values drawn from the grammars (SPDX expressions over the bundled id lists incl. "
+            "marker; one bare form) x 46 decorations (indentation, tabs, several blanks, trailing blanks, 23 stacked foreign terminators, 11 "
+            "ASCII-art frames with mirrored suffix, three of them indented with tabs) x values drawn from the grammars (SPDX expressions over the bundled id lists incl. "
             "WITH/AND/OR/+/LicenseRef, holders with e-mail/URL/punctuation/non-ASCII, 5 year forms, 13 copyright prefixes) x {LF, CRLF, "
             "CR}; each written to a real file and read with reuse_info_of_file (contributors together with a copyright line so that the file "
             "reports them); oracle: exactly the planted value; non-trivial = distinct (style, form, decoration, kind)")
@@ -1125,11 +1135,11 @@ class DecodeStream(Stream):
 class SmallEnumStream(Stream):
     name = "smallenum"
     exhaustive = True
-    rule = ("every line `PRE TAG SEP V TRAIL` with PRE from 9 prefixes, SEP from 3, V every string of <=3 tokens over {a, #, *, /, -, >, }, "
+    rule = ("every line `PRE TAG SEP V TRAIL` with PRE from 10 prefixes, SEP from 3, V every string of <=3 tokens over {a, #, *, /, -, >, }, "
             "\", blank} that is stripped, TRAIL from 8 (exhaustive); find_spdx_tag against the model; oracle: V comes back exactly unless it is "
             "ambiguous in its own line (ends like a terminator or like the mirrored prefix); non-trivial = distinct result")
 
-    PRES = ["", "# ", "// ", " * ", "/* ", "<!-- ", "c ", "|* ", "\t"]
+    PRES = ["", "# ", "// ", " * ", "/* ", "<!-- ", "c ", "|* ", "\t", "\t#\t"]
     SEPS = [" ", "\t", "  "]
     TOK = ["a", "#", "*", "/", "-", ">", "}", "\"", " "]
     TRAILS = ["", " ", " */", "*/", "-->", " */ -->", "\">", " #"]
